@@ -26,6 +26,8 @@ VARIANT = None  # None: the package's own converter; "omit": hooks on a caller-s
 VARIANTS = {
     None: "converters.get_converter()",
     "omit": "converters.get_converter(cattrs.Converter(omit_if_default=True))",
+    "nodetail": "converters.get_converter(cattrs.Converter(detailed_validation=False))",
+    "omit-nodetail": "converters.get_converter(cattrs.Converter(omit_if_default=True, detailed_validation=False))",
 }
 
 
